@@ -68,3 +68,13 @@ chk("C06", "exploration",
     "read-back rule tolerates line-break units for folds and absent units for trailing newlines; risky spellings are tagged by the generator and three root causes (escapes in double quotes, blank line inside folded/quoted/plain multi-line scalars, explicit indentation indicators) are listed known findings",
     "runtime read-back oracle over in-process parser executions + H1 dump of pint child processes",
     "DESIGN.md §3 C06")
+chk("C04", "exploration",
+    "differential monitor in process: the label analysis (utils.LabelsSource) and the real alerts/template check are run on typed random PromQL plus join-shaped templates, and the same expressions are evaluated by the vendored PromQL engine on 4-8 random in-memory databases; every series the engine returns must be admitted by some live branch, and for single-branch queries the check must never report a label a returned series carries.",
+    "engine = vendored promql over a hand-written storage.Queryable at a fixed timestamp; small universe (3 metrics, 4 data labels, 2 values); histogram and experimental functions not generated; the two test-pinned analyser defects are listed known findings",
+    "differential oracle (real PromQL engine) over in-process executions of pint's analyser and check",
+    "DESIGN.md §3 C04")
+chk("C12", "exploration",
+    "differential monitor in process: for every source the label analysis marks dead, the operation the flagged part belongs to is located in the AST and evaluated by the vendored PromQL engine on 6 dense databases (every series carries every label); the claim must hold on all of them (join/unless/static: some enclosing operation empty, unless-RHS and or-RHS: result equals the left side alone). Random expressions of the stated fragment plus join-shaped templates.",
+    "a scalar-valued operation or an engine error makes a claim inconclusive; the owner of a claim is recovered from the claim's label and modifier; analyser false positives found (on() label carried by neither side, folded aggregations/functions of constants, `or` and `bool` cases pinned by the repo's own tests) are listed known findings identified by engine-observed causes",
+    "differential oracle (real PromQL engine) over in-process executions of pint's analyser",
+    "DESIGN.md §3 C12")
